@@ -36,6 +36,50 @@ def gen_paths(rng, m, tier):
     return [list(p) for p in paths]
 
 
+def child_hops(db, root, pre, seg):
+    """Independent of the trie code (rlp and the hex-prefix convention only): the number of child references followed when
+    `seg` is consumed from the node that lies exactly at `pre`; None when there is no node exactly at `pre`."""
+    import rlp
+    from trie.constants import BLANK_NODE_HASH
+
+    def resolve(ref):
+        if isinstance(ref, (bytes, bytearray)):
+            if len(ref) == 0 or bytes(ref) == BLANK_NODE_HASH:
+                return b""
+            if len(ref) < 32:
+                return rlp.decode(bytes(ref))
+            if bytes(ref) not in db:
+                return None
+            return rlp.decode(dict.__getitem__(db, bytes(ref)))
+        return ref
+
+    def walk(node, nibs):
+        hops = 0
+        nibs = list(nibs)
+        while nibs:
+            if node is None or node == b"":
+                return node, hops, nibs
+            if len(node) == 17:
+                ref, nibs = node[nibs[0]], nibs[1:]
+            else:
+                hp = node[0]
+                flag = hp[0] >> 4
+                pn = [x for b in hp[1:] for x in (b >> 4, b & 15)]
+                if flag & 1:
+                    pn = [hp[0] & 15] + pn
+                if flag & 2 or nibs[: len(pn)] != pn:
+                    return node, hops, nibs
+                ref, nibs = node[1], nibs[len(pn):]
+            hops += 1
+            node = resolve(ref)
+        return node, hops, nibs
+
+    start, _, left = walk(resolve(root), pre)
+    if left or start is None:
+        return None
+    return walk(start, seg)[1]
+
+
 def ann4(h):
     """(sub_segments, value, suffix, type) of a hnode observation"""
     return [h[0], h[1], h[2], h[4]]
@@ -68,6 +112,8 @@ def run_case(case, tier):
             splits.append((p[:cut], p[cut:]))
     for pre, seg in splits:
         ops.append(("traverse_from", pre, seg))
+    for pre, seg in splits:
+        ops.append(("tf_reads", pre, seg))
     outs = [HX.step(t, op, backing) for op in ops]
     nw = nw_ops
     res = dict((tuple(p), o) for p, o in zip(paths, outs[nw:nw + len(paths)]))
@@ -103,7 +149,7 @@ def run_case(case, tier):
     if () in res and rn != res[()] and bad is None:
         bad = "root_node differs from traverse(())"
     # traverse_from(node at pre, seg) == traverse(pre + seg), with at most one read per hop
-    for (pre, seg), o in zip(splits, outs[nw + len(paths) + 1:]):
+    for (pre, seg), o in zip(splits, outs[nw + len(paths) + 1:nw + len(paths) + 1 + len(splits)]):
         whole = res[tuple(pre + seg)]
         first = res.get(tuple(pre))
         if isinstance(first, Exc) or (isinstance(o, list) and len(o) == 1 and isinstance(o[0], Exc)):
@@ -116,7 +162,14 @@ def run_case(case, tier):
                 bad = f"traverse_from({pre},{seg}) partial result differs from traverse({pre + seg})"
         elif o != whole and bad is None:
             bad = f"traverse_from(node at {pre}, {seg}) != traverse({pre + seg})"
-    # read counting: one hop = at most one database read
+    # read counting: traverse_from reads at most one database entry per child hop (hops counted by an independent walk)
+    for (pre, seg), nreads in zip(splits, outs[nw + len(paths) + 1 + len(splits):]):
+        if nreads is None or bad is not None:
+            continue
+        stats["read_counts"] = stats.get("read_counts", 0) + 1
+        hops = child_hops(backing, bytes(t.root_hash), pre, seg)
+        if hops is not None and nreads > hops:
+            bad = f"traverse_from(node at {pre}, {seg}) read the database {nreads} times over {hops} child hop(s)"
     if bad is None:
         for p in paths[:15]:
             o = res[tuple(p)]
